@@ -117,6 +117,9 @@ def step_case(prog, case, budget):
         if r.kind != 'ok':
             return
         ctx = r.value
+        if M.solver.check() != z3.sat:
+            st.infeasible += 1          # assumptions added late (second world of a product run) made the path infeasible
+            return
         nontriv[0] += 1
         obs = []
         for j in judges:
